@@ -6,10 +6,12 @@ import argparse, json, os, re, shutil, glob
 
 ap = argparse.ArgumentParser()
 ap.add_argument("wt"); ap.add_argument("name"); ap.add_argument("pid")
+ap.add_argument("--suffix", default="")
+ap.add_argument("--round", default="")
 ap.add_argument("--breaks", default=""); ap.add_argument("--needs", default=""); ap.add_argument("--note", default="")
 a = ap.parse_args()
 src = os.path.join(a.wt, "_seed", a.name)
-dst = os.path.join("/verif/seeded", f"{a.pid}-{a.name}")
+dst = os.path.join("/verif/seeded", f"{a.pid}-{a.name}{a.suffix}")
 os.makedirs(dst, exist_ok=True)
 for f in ("patch.diff", "demo.py", "notes.md"):
     if os.path.exists(os.path.join(src, f)):
@@ -35,6 +37,7 @@ def first(f):
 meta = {
     "property": a.pid,
     "seed": a.name,
+    "round": a.round,
     "origin": "written by an independent sub-agent that was given only the property text and a scratch worktree (nothing from /verif)",
     "breaks": a.breaks,
     "needs_to_manifest": a.needs,
